@@ -29,7 +29,7 @@ REQUIRED_FUNCS = ["sempler/noise.py:normal", "sempler/noise.py:uniform", "semple
 REQUIRED_COUNTERS = {t: {"dkw:normal": 30, "dkw:uniform": 10, "dkw:laplace": 20, "zero:checked": 2, "null:checked": 2, "repro:seeded-equal": 50,
                          "repro:unseeded-differ": 50} for t in ("quick", "thorough")}
 NBIG = {"quick": 100000, "thorough": 1000000}
-SEEDS = {"quick": (0, 1, 12345), "thorough": (0, 1, 42, 12345, 2**32 - 1)}
+SEEDS = {"quick": (0, 1, 12345), "thorough": (0, 1, 2, 3, 5, 7, 42, 99, 12345, 65537, 2**31, 2**32 - 1)}
 
 GRID = []
 for mean in (-3.0, 0.0, 2.5):
